@@ -100,6 +100,8 @@ def frame? : Sexp → Option Frame
   | .list [.atom "t", n] => n.nat?.map .task
   | .list [.atom "h", n, k] => do some (.helper (← n.nat?) (← k.nat?))
   | .list [.atom "o", n] => n.nat?.map .orphan
+  | .list [.atom "k", n] => n.nat?.map .hook
+  | .list [.atom "j", n, k] => do some (.hookHelper (← n.nat?) (← k.nat?))
   | .list [.atom "x"] => some (.orphan 99999)     -- a user frame the harness could not identify
   | _ => none
 
@@ -127,6 +129,13 @@ def firstDiffE (a b : List Event) (i : Nat := 0) : Option String :=
   | x :: _, [] => some s!"event {i}: model={repr x} impl=<missing>"
   | [], y :: _ => some s!"event {i}: model=<missing> impl={repr y}"
 
+def bottom? : Sexp → Option Bottom
+  | .atom "0" => some .none
+  | .atom "1" => some .errFuture
+  | .list [.atom "hook", .atom "pause", h] => h.nat?.map (.hook false)
+  | .list [.atom "hook", .atom "resume", h] => h.nat?.map (.hook true)
+  | _ => none
+
 def rule? : Sexp → Option FrameRule
   | .atom "deepest" => some .deepest
   | .atom "own" => some .own
@@ -135,7 +144,7 @@ def rule? : Sexp → Option FrameRule
 def handleGlue (id : Nat) (hdr body : List Sexp) : String :=
   match hdr, body.mapM event? with
   | [b, r, ls], some impl =>
-    match b.bool?, rule? r, levels? ls with
+    match bottom? b, rule? r, levels? ls with
     | some bottom, some rule, some levels =>
       let model := runTop rule bottom levels
       verdict id (firstDiffE model impl) (glueClause bottom levels impl) (glueClause bottom levels model)
